@@ -12,6 +12,7 @@ import (
 	"sort"
 	"strings"
 	"sync"
+	"sync/atomic"
 	"testing"
 	"time"
 
@@ -30,6 +31,7 @@ type vfSrvPlan struct {
 	Stdout         []byte // what the server writes to stdout (possibly cut / garbage / oversize)
 	StdoutStall    bool   // block after Stdout instead of EOF (real 10 s timeout)
 	DieAfterSends  int    // <0 never: server exits when the client runner sees its k-th send call
+	DieAfterResponse bool // server exits right after its response was read, before any request is sent
 	Stderr         string
 	Desc           string
 }
@@ -115,10 +117,17 @@ type vfStallReader struct {
 	r     io.Reader
 	stall bool
 	done  chan struct{}
+	left  int
+	onEnd func()
 }
 
 func (s *vfStallReader) Read(p []byte) (int, error) {
 	n, err := s.r.Read(p)
+	s.left -= n
+	if s.left == 0 && n > 0 && s.onEnd != nil {
+		s.onEnd() // the process exits as soon as its answer has been consumed
+		s.onEnd = nil
+	}
 	if err == io.EOF && s.stall {
 		if n > 0 {
 			return n, nil
@@ -148,10 +157,18 @@ type vfFakeClient struct {
 	accepted   []string
 	reqs       map[string]*conformancev1.ClientCompatRequest
 	expected   map[string]*conformancev1.ClientResponseResult
+	sentAfterDeath []string
 }
 
 func (f *vfFakeClient) sendRequest(req *conformancev1.ClientCompatRequest, whenDone func(string, *conformancev1.ClientCompatResponse, error)) error {
 	f.mu.Lock()
+	if f.srv != nil {
+		select {
+		case <-f.srv.done:
+			f.sentAfterDeath = append(f.sentAfterDeath, req.TestName)
+		default:
+		}
+	}
 	k := f.calls
 	f.calls++
 	if f.dieAfter >= 0 && k == f.dieAfter && f.srv != nil {
@@ -228,6 +245,8 @@ func vfServerResponseBytes(host string, port uint32, cert []byte) []byte {
 	return out
 }
 
+var vfBatchHangSeen atomic.Bool
+
 type vfBatchScenario struct {
 	N           int
 	RefServer   bool
@@ -262,7 +281,13 @@ func vfRunBatch(rep *verifkit.Report, sc *vfBatchScenario, id string) {
 		}
 		ctl.started = true
 		return &process{processController: ctl, stdin: stdin,
-			stdout: &vfStallReader{r: bytes.NewReader(sc.Srv.Stdout), stall: sc.Srv.StdoutStall, done: ctl.done},
+			stdout: func() io.Reader {
+				r := &vfStallReader{r: bytes.NewReader(sc.Srv.Stdout), stall: sc.Srv.StdoutStall, done: ctl.done, left: len(sc.Srv.Stdout)}
+				if sc.Srv.DieAfterResponse {
+					r.onEnd = ctl.die
+				}
+				return r
+			}(),
 			stderr: strings.NewReader(sc.Srv.Stderr)}, nil
 	}
 	results := newResults(sc.N, &testTrie{}, &testTrie{}, nil)
@@ -280,6 +305,9 @@ func vfRunBatch(rep *verifkit.Report, sc *vfBatchScenario, id string) {
 		})
 	}()
 	bound := 75 * time.Second // 3 x (10 s server read + 5 + 5 s abort grace + slack)
+	if vfBatchHangSeen.Load() {
+		bound = 25 * time.Second
+	}
 	select {
 	case p := <-done:
 		if p != nil {
@@ -287,6 +315,7 @@ func vfRunBatch(rep *verifkit.Report, sc *vfBatchScenario, id string) {
 			return
 		}
 	case <-time.After(bound):
+		vfBatchHangSeen.Store(true)
 		rep.Violation("batch/not-terminating/"+sc.ServerFault, "runTestCasesForServer did not return within the progress bound", w)
 		ctl.die()
 		return
@@ -371,6 +400,9 @@ func vfRunBatch(rep *verifkit.Report, sc *vfBatchScenario, id string) {
 			}
 			sig = append(sig, "S")
 		}
+	}
+	if len(fc.sentAfterDeath) > 0 {
+		rep.Violation("batch/sent-after-server-death/"+sc.ServerFault, fmt.Sprintf("cases %q were handed to the client although the server process had already exited; they are affected by the server's death and must be setup errors", fc.sentAfterDeath), w)
 	}
 	// the server is asked to stop
 	ctl.mu.Lock()
@@ -536,6 +568,9 @@ func TestVerifC11Batch(t *testing.T) {
 			s3.SendErrAt, s3.ServerFault = k, "client-send-error-at-k"
 			run(s3)
 		}
+		s5 := base()
+		s5.Srv.DieAfterResponse, s5.ServerFault = true, "server-exits-before-first-send"
+		run(s5)
 		for k := 0; k < 3; k++ {
 			s4 := base()
 			s4.Srv.DieAfterSends, s4.SendErrAt = rng.Intn(s4.N+1), rng.Intn(s4.N+1)
@@ -562,4 +597,86 @@ func TestVerifC11Batch(t *testing.T) {
 	}
 	_ = sort.Strings
 	_ = internal.DefaultHost
+}
+
+// TestVerifC11OSProcess: the same oracle with real OS processes as servers
+// (runCommand): commands that exit before, while or after reading their
+// request, or answer garbage.
+func TestVerifC11OSProcess(t *testing.T) {
+	rep := verifkit.Begin("C11", "os-process", "runTestCasesForServer with startServer = runCommand(sh -c script): exits at once, exits after a delay without reading, reads 2 bytes and exits, consumes the request and closes stdout, answers garbage, answers a truncated frame, exits non-zero after consuming; batches of 1-4 cases with a scripted client runner; oracle: returns within the progress bound, every case a setup error, nothing sent to the client; distinct = (script, batch size, repetition)")
+	defer rep.Write()
+	scripts := map[string]string{
+		"exit-at-once":           "exit 0",
+		"exit-nonzero-at-once":   "exit 3",
+		"exit-late-without-read": "sleep 0.03; exit 1",
+		"read-2-bytes-then-exit": "head -c 2 >/dev/null; exit 0",
+		"consume-then-eof":       "cat >/dev/null",
+		"consume-then-garbage":   "cat >/dev/null; printf '\\000\\000\\000\\005\\377\\377\\377\\377\\377'",
+		"consume-then-truncated": "cat >/dev/null; printf '\\000\\000\\000\\011ab'",
+		"garbage-without-reading": "printf '\\000\\000\\000\\005\\377\\377\\377\\377\\377'; sleep 0.02",
+	}
+	reps := verifkit.Scale(3, 25)
+	for _, name := range verifkit.SortedKeys(scripts) {
+		for r := 0; r < reps; r++ {
+			n := 1 + (r % 4)
+			rep.Eval(1)
+			rep.DistinctKey(name, n, r)
+			var tcs []*conformancev1.TestCase
+			fc := &vfFakeClient{scripts: map[string]vfCaseScript{}, sendErrAt: -1, dieAfter: -1, fired: map[string]int{}, reqs: map[string]*conformancev1.ClientCompatRequest{}, expected: map[string]*conformancev1.ClientResponseResult{}}
+			for i := 0; i < n; i++ {
+				nm := fmt.Sprintf("OS/%s/%d/case %d", name, r, i)
+				exp := &conformancev1.ClientResponseResult{Payloads: []*conformancev1.ConformancePayload{{Data: []byte(nm)}}}
+				tcs = append(tcs, &conformancev1.TestCase{Request: &conformancev1.ClientCompatRequest{TestName: nm, StreamType: 1}, ExpectedResponse: exp})
+				fc.scripts[nm] = vfCaseScript{Kind: "pass"}
+				fc.expected[nm] = exp
+			}
+			results := newResults(n, &testTrie{}, &testTrie{}, nil)
+			w := map[string]any{"script": scripts[name], "name": name, "cases": n}
+			rep.InFlight(w)
+			done := make(chan *verifkit.Panic, 1)
+			go func() {
+				done <- verifkit.Catch(func() {
+					// a large server credential makes the request bigger than one pipe write
+					creds := &conformancev1.TLSCreds{Cert: bytes.Repeat([]byte("C"), 200000), Key: []byte("K")}
+					runTestCasesForServer(context.Background(), false, r%2 == 0, serverInstance{protocol: 1, httpVersion: 1, useTLS: r%3 == 0}, tcs, creds, nil,
+						runCommand([]string{"/bin/sh", "-c", scripts[name]}), &vfLinePrinter{}, &vfLinePrinter{}, results, fc, nil, false)
+				})
+			}()
+			bound := 75 * time.Second
+			if vfBatchHangSeen.Load() {
+				bound = 25 * time.Second
+			}
+			select {
+			case p := <-done:
+				if p != nil {
+					rep.Violation("batch/os/panic/"+p.Site, p.Value, w)
+					continue
+				}
+			case <-time.After(bound):
+				vfBatchHangSeen.Store(true)
+				rep.Violation("batch/os/not-terminating/"+name, "runTestCasesForServer did not return within the progress bound with an OS-process server that "+name, w)
+				continue
+			}
+			fc.cbWG.Wait()
+			results.mu.Lock()
+			for _, tc := range tcs {
+				o, ok := results.outcomes[tc.Request.TestName]
+				switch {
+				case !ok:
+					rep.Violation("batch/os/missing-outcome/"+name, "no outcome for "+tc.Request.TestName, w)
+				case o.actualFailure == nil || !o.setupError:
+					rep.Violation("batch/os/not-setup-error/"+name, fmt.Sprintf("%s: failure=%v setup=%v", tc.Request.TestName, o.actualFailure, o.setupError), w)
+				}
+			}
+			results.mu.Unlock()
+			fc.mu.Lock()
+			if len(fc.accepted) > 0 {
+				rep.Violation("batch/os/cases-sent-despite-server-fault/"+name, fmt.Sprintf("%d cases were sent", len(fc.accepted)), w)
+			}
+			fc.mu.Unlock()
+			rep.Count("os:"+name, 1)
+		}
+	}
+	rep.Sample(map[string]any{"script": "head -c 2 >/dev/null; exit 0", "expect": "returns promptly; every case a setup error"})
+	rep.RequireMin("os:read-2-bytes-then-exit", 2)
 }
